@@ -51,3 +51,40 @@ Theorem C15_every_name_parses_to_its_entry : forall O T text sp s,
   parse O T false false false text = Ok (Some (Lit (Plain s))) /\ render (Lit (Plain s)) = key s.
 Proof. exact recognise_name. Qed.
 Print Assumptions C15_every_name_parses_to_its_entry.
+
+(* (4) every name of the two shipped tables: a text whose lower-cased words are those of a key or alias of an entry - any letter
+   case, any white space - parses to that entry's symbol (its key and exception flag as the index has them), renders as the
+   canonical key and validates without errors. Obtained from the theorem over accepted tables (C15_names_of_a_built_table) and
+   what the kernel computed on the regenerated index: both tables are built, none of their names holds an operator word or a
+   parenthesis, every name has words. *)
+Require Import Proofs.Strings Proofs.Accepted Tie.IndexNames.
+Theorem C15_every_shipped_name_resolves_and_validates :
+  (forall e n v text, In e (table_of (build_licensing ascii_oracle shipped_index)) -> In (n, v) (entry_adds ascii_oracle e) ->
+     lwords ascii_oracle text = lwords ascii_oracle n ->
+     let T := table_of (build_licensing ascii_oracle shipped_index) in
+     parse ascii_oracle T false false false text = Ok (Some (Lit (Plain (entry_sym e)))) /\
+     render (Lit (Plain (entry_sym e))) = ekey e /\
+     validate ascii_oracle T false text = {| normalized := Some (ekey e); errors := []; invalid_symbols := [] |}) /\
+  (forall e n v text, In e (table_of (build_spdx_licensing ascii_oracle shipped_index)) -> In (n, v) (entry_adds ascii_oracle e) ->
+     lwords ascii_oracle text = lwords ascii_oracle n ->
+     let T := table_of (build_spdx_licensing ascii_oracle shipped_index) in
+     parse ascii_oracle T false false false text = Ok (Some (Lit (Plain (entry_sym e)))) /\
+     render (Lit (Plain (entry_sym e))) = ekey e /\
+     validate ascii_oracle T false text = {| normalized := Some (ekey e); errors := []; invalid_symbols := [] |}).
+Proof. exact shipped_names_resolve. Qed.
+Print Assumptions C15_every_shipped_name_resolves_and_validates.
+
+(* (5) the same for a Licensing built from any index of the same format (any table Licensing() accepted) none of whose names
+   holds an operator word or a parenthesis: every name with words, in any case and spacing, is its entry's license. *)
+Theorem C15_names_of_a_built_table : forall O, is_space O 32%N = true ->
+  (forall c, In c [97; 110; 100; 111; 114; 119; 105; 116; 104; 40; 41]%N -> is_space O c = false /\ lower_ch O c = [c]) ->
+  (forall c, is_space O c = true -> lower_ch O c = [c]) ->
+  (forall c, is_space O c = false -> lower_ch O c <> [] /\ nospace O (lower_ch O c)) ->
+  forall raw T : list entry, new_licensing O raw = Ok T ->
+  (forall n v, In (n, v) (flat_map (entry_adds O) T) -> forall w, In w (lwords O n) -> is_keyword_str w = false) ->
+  forall e n v text, In e T -> In (n, v) (entry_adds O e) -> lwords O n <> [] -> lwords O text = lwords O n ->
+  parse O T false false false text = Ok (Some (Lit (Plain (entry_sym e)))) /\
+  render (Lit (Plain (entry_sym e))) = ekey e /\
+  validate O T false text = {| normalized := Some (ekey e); errors := []; invalid_symbols := [] |}.
+Proof. exact accepted_name_resolves. Qed.
+Print Assumptions C15_names_of_a_built_table.
